@@ -9,7 +9,7 @@ use std::io::Write;
 use std::sync::Mutex;
 
 /// class sets are the subject of C09; the facts events keep the set only where an obligation needs it
-fn strip_sets(v: &Value) -> Value {
+pub fn strip_sets(v: &Value) -> Value {
     match v {
         Value::Object(o) => {
             let mut m = serde_json::Map::new();
